@@ -9,7 +9,7 @@
 //! result: ( cls rt times res )
 //!   cls    ( (cp is_alphabetic is_alphanumeric)* ) for the non-ASCII chars of the pattern
 //!   rt     ( pid thread_id debug_assertions )
-//!   times  ( (valid utc_before utc_after local_before local_after)* ) per treq
+//!   times  ( (validity utc_before utc_after local_before local_after)* ) per treq
 //!   res    "panic" | "ok" (mode 2) | ( event* ), event = (cp*) text written | N set_style code
 use std::io;
 use vh::val::Val;
@@ -138,11 +138,20 @@ fn body(case: &Val) -> Val {
         Val::N(thread_id::get() as u128),
         Val::bool(cfg!(debug_assertions)),
     ]);
-    let render = |f: &str| -> (bool, String, String) {
+    // validity 0: StrftimeItems yields Item::Error; 1: renders; 2: valid but Display fails
+    let render = |f: &str| -> (u128, String, String) {
+        use std::fmt::Write as _;
         if strftime_valid(f) {
-            (true, chrono::Utc::now().format(f).to_string(), chrono::Local::now().format(f).to_string())
+            let (mut u, mut l) = (String::new(), String::new());
+            let ru = write!(u, "{}", chrono::Utc::now().format(f));
+            let rl = write!(l, "{}", chrono::Local::now().format(f));
+            if ru.is_ok() && rl.is_ok() {
+                (1, u, l)
+            } else {
+                (2, String::new(), String::new())
+            }
         } else {
-            (false, String::new(), String::new())
+            (0, String::new(), String::new())
         }
     };
     let attempt = || -> Val {
@@ -206,7 +215,7 @@ fn body(case: &Val) -> Val {
         .iter()
         .zip(after.iter())
         .map(|(b, a)| {
-            Val::L(vec![Val::bool(b.0), to_cps(&b.1), to_cps(&a.1), to_cps(&b.2), to_cps(&a.2)])
+            Val::L(vec![Val::N(b.0), to_cps(&b.1), to_cps(&a.1), to_cps(&b.2), to_cps(&a.2)])
         })
         .collect();
     Val::L(vec![cls, rt, Val::L(times), res])
